@@ -140,6 +140,7 @@ func TestVerifC16(t *testing.T) {
 		{asset: "testpic_6s", mpd: "Manifest.mpd", cfg: "segtimeline_1", testNowMS: 60000, duration: 12, steps: 2},
 		{asset: "testpic_2s", mpd: "Manifest.mpd", cfg: "timesubsstpp_en", testNowMS: 100500, steps: 3},
 		{asset: "testpic_2s", mpd: "Manifest_imsc1.mpd", cfg: "", testNowMS: 50000, steps: 3},
+		{asset: "testpic_2s", mpd: "Manifest_imsc1.mpd", cfg: "segtimeline_1/ato_1", testNowMS: 70400, steps: 3}, // every kind of representation with an offset
 		{asset: "testpic_alt_seg_dur_stl", mpd: "Manifest.mpd", cfg: "", testNowMS: 14000, steps: 4},
 		{asset: "WAVE/vectors/cfhd_sets/14.985_29.97_59.94/t1/2022-10-17", mpd: "stream.mpd", cfg: "", testNowMS: 7000, steps: 6},
 		{asset: "testpic_2s", mpd: "Manifest.mpd", cfg: "", testNowMS: 100500, steps: 6, deleteAfter: 2},
